@@ -870,6 +870,7 @@ fn main() {
         "VD 3 1 0 2 dup vsub VD 2 0 1 vsvs 2 vden", "VZ 0 VZ 0 vstk", "VD 2 1 2 vspl 0 vstk", "VD 2 1 2 vspl 2", "VD 2 1 2 vspl 3", "fcv 3 0", "VD 2 1 2 VD 3 1 2 0 fcv 2 2",
         "PF 3 3 0", "PF 3 3 2 1 1 1 1", "PF 3 3 1 3 0", "PF 0 0 0", "P 0", "P 2 0 0", "P 2 0 2",
         "M 2 2 1 2 3 4 lel 1 1 0 1 0 1", "M 2 2 1 2 3 4 rel 1 1 0 1 1 0", "M 2 2 1 2 3 4 swr 0 2", "M 0 0 disid", "M 2 3 1 0 0 0 1 0 disid", "MG 2 3 2 1 1 disid", "MG 2 2 3 1 1 1",
+        "MG 7 6 6 1 2 3 4 5 6 dup disdg", "MG 6 6 6 1 1 1 1 1 1 disid", "I 7 dense disid", "VD 7 1 2 3 4 5 6 7 vspl 5 vstk vden", "I 7 P 7 6 5 4 3 2 1 0 permr dup tr mul dense disid",
         "TI 0 tfm", "TI 3 tred tfm swap tbm", "TI 3 TI 3 tmerge tred", "TI 3 TI 2 tmerge", "TI 3 tsub 2 2 0 tsub 1 1 tred VD 3 1 2 3 tfwd swap VD 1 1 tbwd",
         "TI 3 tsub 2 2 2", "TI 3 tsub 1 3", "TI 2 P 2 1 0 tperm P 2 1 0 tperm tred tfm", "I 2 I 2 tnew I 2 I 2 tapp tred I 2 I 2 tapp tfm",
     ] {
@@ -881,12 +882,12 @@ fn main() {
     corpus_case::<FF<3>>(&mut s, "DD 2 2 1 2 2 1 dup add dup add");
 
     let thorough = args.thorough();
-    exhaustive::<i64>(&mut s, if thorough { 4 } else { 2 });
+    exhaustive::<i64>(&mut s, if thorough { 5 } else { 2 });
     if thorough { exhaustive::<Ratio<i64>>(&mut s, 3); exhaustive::<FF<3>>(&mut s, 3); }
 
-    let n = if thorough { 400_000 } else { 24_000 };
+    let n = if thorough { 1_200_000 } else { 24_000 };
     for k in 0..n {
-        let max = if thorough { if k % 10 == 0 { 9 } else { 6 } } else { 5 };
+        let max = if thorough { if k % 10 == 0 { 9 } else { 6 } } else if k % 12 == 0 { 8 } else { 5 };
         let mode = r.below(8).min(4);   // mixed 1/8, trans 1/8, dense 1/8, vec 1/8, sparse 1/2
         let mode = match mode { 4 => if r.chance(1, 3) { 1 } else { 4 }, m => m };
         let mut rr = r.fork();
